@@ -400,6 +400,18 @@ impl Ctx {
         let m = mem();
         let log = std::mem::take(&mut m.log);
         let now = self.model.table_frames();
+        // recursive mapper: the first access to a frame that became a table in this call must be a
+        // write (the zeroing) — reading an entry of a new table before it is zeroed is "use before zero"
+        if self.backend == Backend::Recursive {
+            let mut seen: BTreeSet<u64> = BTreeSet::new();
+            for a in &log {
+                if let Access::Mmu { frame, write, vpage } = *a {
+                    if seen.insert(frame) && now.contains(&frame) && !tables_before.contains(&frame) && !write {
+                        fail!(T_C09, "step {} (Recursive): the first access to the newly allocated table frame {:#x} (through {:#x}) was a read: an entry of the new table was used before the table was zeroed", self.step, frame, vpage);
+                    }
+                }
+            }
+        }
         for a in &log {
             match *a {
                 Access::Pointer(f) => {
